@@ -171,9 +171,11 @@ pub fn run_mmrp_more(op: &str, a: &[Arg], st: &mut Stats) -> Option<Out> {
                     let new = MmrAccumulator::init(f2.peaks(), all.len() as u64);
                     let mut inc = old.clone();
                     for l in &apps { inc.append(*l); }
+                    // NOT a successor: the same appended leafs on top of an old leaf list that differs in one leaf
+                    // (an accumulator that differs in an APPENDED leaf only is a successor of `old`, too, and may verify)
                     let mut other = all.clone();
-                    let j = n + k / 2;
-                    if j < other.len() { other[j] = r.digest_u(); } else { other.push(r.digest_u()); }
+                    let j = [0, n - 1, n / 2][(seed % 3) as usize];
+                    other[j] = r.digest_u();
                     let not_succ = MmrAccumulator::new_from_leafs(other);
                     let mut tampered = sp.clone();
                     let tamper_ok = match tampered.paths.last_mut() {
@@ -183,7 +185,8 @@ pub fn run_mmrp_more(op: &str, a: &[Arg], st: &mut Stats) -> Option<Out> {
                     Out::ok(format!("ok:{}|{}|{}|{}", n, k, sp.paths.len(), cks(&f2.peaks())))
                         .with_oracle(inc.peaks() == f2.peaks() && inc.num_leafs() == all.len() as u64, format!("{} appends to an accumulator of {} leafs: peaks differ from the from-scratch forest", k, n))
                         .with_oracle(sp.verify(&old, &new), format!("new_from_batch_append({} leafs + {} appended): the proof does not verify between the two accumulators", n, k))
-                        .with_oracle(k == 0 || !sp.verify(&old, &not_succ), "successor proof verifies against an accumulator with a different appended leaf")
+                        .with_oracle(!sp.verify(&old, &not_succ), format!("successor proof verifies against an accumulator of the same size whose old leaf {} differs (not a successor)", j))
+                        .with_oracle(k == 0 || !sp.verify(&new, &old), "successor proof verifies with the two accumulators swapped")
                         .with_oracle(tamper_ok, "successor proof with one altered digest verifies")
                 }
                 _ => return None,
